@@ -302,6 +302,16 @@ func (r *rewriter) walk(n ast.Node, _ bool) {
 					}
 				}
 			}
+			// recover(): the scheduler's own unwinding panic passes through
+			if id, ok := x.Fun.(*ast.Ident); ok && id.Name == "recover" && len(x.Args) == 0 && !r.external {
+				if _, isBuiltin := r.info.Uses[id].(*types.Builtin); isBuiltin {
+					inner := &ast.CallExpr{Fun: ast.NewIdent("recover")}
+					x.Fun = r.vs("FilterRecover")
+					x.Args = []ast.Expr{inner}
+					r.site(x, "recover")
+					return false
+				}
+			}
 			// maps.Keys / maps.Values / maps.All (standard library iterators over a Go map)
 			if sel, ok := x.Fun.(*ast.SelectorExpr); ok && !r.external && len(x.Args) == 1 {
 				if id, ok := sel.X.(*ast.Ident); ok {
